@@ -63,7 +63,8 @@ CfgOf(t, s) ==
      med     |-> t.med,
      \* SESS_TICKET_STATE_IN_LIMBO - and only a client that put a ticket (not the empty extension) into its ClientHello
      \* can be in doubt about it: what it sent is taken from its state right after the ClientHello was written
-     limbo   |-> s.role = "C" /\ t.tick = 4 /\ s.offered,
+     \* ... and if it also sent a session id, a server that takes the ticket must echo it (RFC 5077 3.4): no echo, no doubt
+     limbo   |-> s.role = "C" /\ t.tick = 4 /\ s.offered /\ (~s.offeredId \/ t.resumed = 1),
      retry   |-> t.hs = s.hs]
 
 ObsDead(t, s) == t.err = 1 \/ t.closed = 1 \/ FatalSealed(t) \/ t.rc = "Error" \/ s.dead # "no"
@@ -151,7 +152,8 @@ TNew ==
             /\ (t.role = "C") = (t.hs \in {"SERVER_HELLO", "T13_WAIT_SH"})
             /\ sess' = [x \in DOMAIN sess \cup {t.ep} |->
                            IF x = t.ep THEN InitSess(t.role, t.hs, t.ver \in {"D10", "D12"})
-                                            @@ [offered |-> t.role = "C" /\ "tick" \in DOMAIN t /\ t.tick = 2]     \* SESS_TICKET_STATE_SENT_TICKET
+                                            @@ [offered |-> t.role = "C" /\ "tick" \in DOMAIN t /\ t.tick = 2,     \* SESS_TICKET_STATE_SENT_TICKET
+                                                offeredId |-> t.role = "C" /\ "oidlen" \in DOMAIN t /\ t.oidlen > 0]
                            ELSE sess[x]]
 
 TDel ==
